@@ -1,2 +1,234 @@
-// Package c09: implementation-side ops, generators and oracles for property C09.
+// Package c09: equality search over protected columns finds exactly the matching rows (C09).
+// Implementation-side ops on the real hmac / crypto / query-observer / translator code.
 package c09
+
+import (
+	"context"
+	"fmt"
+	"strings"
+
+	"github.com/cossacklabs/acra/cmd/acra-translator/common"
+	"github.com/cossacklabs/acra/crypto"
+	"github.com/cossacklabs/acra/decryptor/base"
+	"github.com/cossacklabs/acra/encryptor/base/config"
+	"github.com/cossacklabs/acra/hmac"
+	poisonpkg "github.com/cossacklabs/acra/poison"
+	"github.com/cossacklabs/themis/gothemis/keys"
+
+	"verifharness/internal/core"
+	env "verifharness/internal/envops"
+)
+
+const clientID = "client"
+
+// store builds the fake key store of one client: data keys + HMAC key ("none" = no HMAC key).
+func store(hk string, kv *env.KV) *env.TKS {
+	ks := &env.TKS{Clients: map[string]*env.KV{clientID: kv}, Hmac: map[string][]byte{}}
+	if hk != "none" {
+		ks.Hmac[clientID] = core.UnHex(hk)
+	}
+	return ks
+}
+
+var settingCache = map[string]config.ColumnEncryptionSetting{}
+
+// searchableSetting returns a column setting `searchable: true` with the given crypto envelope.
+func searchableSetting(kind string) config.ColumnEncryptionSetting {
+	if s, ok := settingCache[kind]; ok {
+		return s
+	}
+	envl := "acrastruct"
+	if kind == "block" {
+		envl = "acrablock"
+	}
+	yaml := fmt.Sprintf("schemas:\n  - table: t\n    columns:\n      - c\n    encrypted:\n      - column: c\n        searchable: true\n        crypto_envelope: %s\n", envl)
+	st, err := config.MapTableSchemaStoreFromConfig([]byte(yaml), config.UseMySQL)
+	if err != nil {
+		panic("harness: schema: " + err.Error())
+	}
+	s := st.GetTableSchema("t").GetColumnEncryptionSettings("c")
+	settingCache[kind] = s
+	return s
+}
+
+func out(b []byte, err error) string {
+	if err != nil {
+		return core.Err
+	}
+	return core.OkHex(b)
+}
+
+func optHex(b []byte) string {
+	if b == nil {
+		return "none"
+	}
+	return "some:" + core.Hex(b)
+}
+
+func stateStr(p *hmac.Processor) string {
+	h, m, r := p.VerifState()
+	return optHex(h) + "/" + optHex(m) + "/" + core.Hex(r)
+}
+
+func parseOpt(s string) []byte {
+	if s == "none" {
+		return nil
+	}
+	b := core.UnHex(strings.TrimPrefix(s, "some:"))
+	if b == nil {
+		b = []byte{}
+	}
+	return b
+}
+
+func init() {
+	env.Init()
+	core.RegisterProp("C09", run)
+	core.Register("C09.hmac", func(a []string) string {
+		return core.Hex(hmac.GenerateHMAC(core.UnHex(a[0]), core.UnHex(a[1])))
+	})
+	core.Register("C09.extract", func(a []string) string {
+		h, rest := hmac.ExtractHashAndData(core.UnHex(a[0]))
+		if h == nil {
+			return "none"
+		}
+		return fmt.Sprintf("some %s %s", core.Hex(h.Marshal()), core.Hex(rest))
+	})
+	core.Register("C09.isequal", func(a []string) string { // key|none hash data
+		h := hmac.ExtractHash(core.UnHex(a[1]))
+		if h == nil {
+			panic("harness: isequal needs a well-formed hash")
+		}
+		ks := store(a[0], &env.KV{})
+		return fmt.Sprint(h.IsEqual(core.UnHex(a[2]), []byte(clientID), ks))
+	})
+	// encrypt kind hkey [kv ×4] data rnd – SearchableDataEncryptor wired as in proxy.go
+	core.Register("C09.encrypt", func(a []string) (res string) {
+		kv := env.ParseKV(a[2:6])
+		ks := store(a[1], kv)
+		reg := crypto.NewRegistryHandler(ks)
+		enc, err := hmac.NewSearchableEncryptor(ks, reg, reg)
+		if err != nil {
+			panic("harness: " + err.Error())
+		}
+		env.WithRand(core.UnHex(a[7]), func() {
+			res = out(enc.EncryptWithClientID([]byte(clientID), core.UnHex(a[6]), searchableSetting(a[0])))
+		})
+		return
+	})
+	core.Register("C09.decrypt.struct", func(a []string) string { // hkey privs ctx data
+		var ps []*keys.PrivateKey
+		for _, p := range env.ParseList(a[1]) {
+			ps = append(ps, &keys.PrivateKey{Value: p})
+		}
+		return out(hmac.DecryptRotatedSearchableAcraStruct(core.UnHex(a[3]), core.UnHex(a[0]), ps, nilIfEmpty(core.UnHex(a[2]))))
+	})
+	core.Register("C09.decrypt.block", func(a []string) string { // hkey keys ctx data
+		return out(hmac.DecryptRotatedSearchableAcraBlock(core.UnHex(a[3]), core.UnHex(a[0]), env.ParseList(a[1]), nilIfEmpty(core.UnHex(a[2]))))
+	})
+	core.Register("C09.hashproc", func(a []string) string { // hkey [kv ×4] data
+		kv := env.ParseKV(a[1:5])
+		ks := store(a[0], kv)
+		p := hmac.NewHashProcessor(crypto.NewRegistryHandler(ks), ks)
+		return out(p.Process(core.UnHex(a[5]), &base.DataProcessorContext{Keystore: ks, Context: env.Ctx([]byte(clientID))}))
+	})
+	core.Register("C09.match", func(a []string) string {
+		return "ok " + fmt.Sprint(crypto.NewEnvelopeMatcher().Match(core.UnHex(a[0])))
+	})
+	// oncolumn hkey second state data – one Processor.OnColumn call from a given state; second = the
+	// column's context already carries the processor's mark (the subscription after the decryptors)
+	core.Register("C09.oncolumn", func(a []string) string {
+		ks := store(a[0], &env.KV{})
+		p := hmac.NewHMACProcessor(ks)
+		// MarkNotDecryptedContext stores `false`, which IsDecryptedFromContext cannot tell from "absent":
+		// start from a context marked decrypted so that the processor's mark becomes visible
+		ctx := base.MarkDecryptedContext(env.Ctx([]byte(clientID)))
+		if a[1] == "true" {
+			ctx, _, _ = p.OnColumn(ctx, nil) // leaves the mark, changes nothing else
+		}
+		st := strings.Split(a[2], "/")
+		p.VerifSetState(parseOpt(st[0]), parseOpt(st[1]), core.UnHex(st[2]))
+		ctx, o, err := p.OnColumn(ctx, core.UnHex(a[3]))
+		if err != nil {
+			return core.Err
+		}
+		return fmt.Sprintf("ok %s %s %v", stateStr(p), core.Hex(o), !base.IsDecryptedFromContext(ctx))
+	})
+	// columns hkey [kv ×4] cols – hmacProcessor → containerDetector → hmacProcessor per column, one Processor object
+	core.Register("C09.columns", func(a []string) string {
+		kv := env.ParseKV(a[1:5])
+		ks := store(a[0], kv)
+		p := hmac.NewHMACProcessor(ks)
+		reg := crypto.NewRegistryHandler(ks)
+		det := crypto.NewEnvelopeDetector()
+		w := crypto.NewOldContainerDetectorWrapper(det)
+		det.AddCallback(crypto.NewDecryptHandler(ks, reg))
+		var outs []string
+		for _, col := range env.ParseList(a[5]) {
+			ctx := env.Ctx([]byte(clientID))
+			ctx, d, err := p.OnColumn(ctx, col)
+			if err != nil {
+				return core.Err
+			}
+			ctx, d, err = w.OnColumn(ctx, d)
+			if err != nil {
+				outs = append(outs, "fatal")
+				continue
+			}
+			_, d, err = p.OnColumn(ctx, d)
+			if err != nil {
+				return core.Err
+			}
+			outs = append(outs, core.Hex(d))
+		}
+		if len(outs) == 0 {
+			return "ok " + stateStr(p) + " _"
+		}
+		return "ok " + stateStr(p) + " " + strings.Join(outs, ",")
+	})
+	translator := func(hk string, kv *env.KV) *common.TranslatorService {
+		svc, err := common.NewTranslatorService(&common.TranslatorData{Keystorage: store(hk, kv), PoisonRecordCallbacks: poisonpkg.NewCallbackStorage()})
+		if err != nil {
+			panic("harness: " + err.Error())
+		}
+		return svc
+	}
+	// tr.encrypt kind hkey [kv ×4] data rnd
+	core.Register("C09.tr.encrypt", func(a []string) (res string) {
+		svc := translator(a[1], env.ParseKV(a[2:6]))
+		env.WithRand(core.UnHex(a[7]), func() {
+			var r common.SearchableResponse
+			var err error
+			if a[0] == "struct" {
+				r, err = svc.EncryptSearchable(context.Background(), core.UnHex(a[6]), []byte(clientID), nil)
+			} else {
+				r, err = svc.EncryptSymSearchable(context.Background(), core.UnHex(a[6]), []byte(clientID), nil)
+			}
+			if err != nil {
+				res = core.Err
+			} else {
+				res = fmt.Sprintf("ok %s %s", core.Hex(r.EncryptedData), core.Hex(r.Hash))
+			}
+		})
+		return
+	})
+	// tr.decrypt kind hkey [kv ×4] data   (hash concatenated in front, the `hash == nil` form of the API)
+	core.Register("C09.tr.decrypt", func(a []string) string {
+		svc := translator(a[1], env.ParseKV(a[2:6]))
+		if a[0] == "struct" {
+			return out(svc.DecryptSearchable(context.Background(), core.UnHex(a[6]), nil, []byte(clientID), nil))
+		}
+		return out(svc.DecryptSymSearchable(context.Background(), core.UnHex(a[6]), nil, []byte(clientID), nil))
+	})
+	core.Register("C09.tr.queryhash", func(a []string) string { // hkey data
+		svc := translator(a[0], &env.KV{NoPub: true, NoPrivs: true, NoSym: true, NoSyms: true})
+		return out(svc.GenerateQueryHash(context.Background(), core.UnHex(a[1]), []byte(clientID), nil))
+	})
+}
+
+func nilIfEmpty(b []byte) []byte {
+	if len(b) == 0 {
+		return nil
+	}
+	return b
+}
